@@ -82,13 +82,19 @@ def oracle(ctx, seeds=None):
                 d0_ = impl.modeldisc.fvm(mod, m0_, scheme_obj)
                 impl.guarded(lambda: d0_.rhs(impl.field.fdata(mod, m0_, [np.linspace(0.5, 1.5, n)])))
         disc = impl.modeldisc.fvm(mod, msh, scheme_obj)
+        if i % 3 == 2:
+            # the SAME model object then serves another discretisation, built LATER on a coarser mesh and never run (a mesh-convergence
+            # study builds all its discretisations first): the time step of `disc` is still that of its own mesh
+            impl.modeldisc.fvm(mod, impl.mesh.unimesh(ncell=max(n // 3, 1), length=float(msh.length) * 4.0), cfg1d.make_scheme(sch))
+        # the initial field may have been created with ANOTHER instance of the model (one field reused in a sweep over the speed)
+        fmod = mod if burg or i % 5 != 3 else impl.convection.model(0.25 * a)
         scale = float(10.0 ** int(rng.choice([0, 0, 0, -12, -6, -9, 6])))   # the schemes are scale invariant: tiny and huge amplitudes too
         u0 = data(rng, n, kind, burg) * scale
         nsteps = int(rng.integers(1, 12))
-        rp = dict(model='burgers' if burg else 'conv', a=None if burg else a, mesh=md, scheme=sch, integrator=integ, cfl=cfl, scale=scale, u0=u0.tolist(), nsteps=nsteps)
+        rp = dict(model='burgers' if burg else 'conv', a=None if burg else a, later_coarser_discretisation=(i % 3 == 2), field_of_another_model_instance=(fmod is not mod), mesh=md, scheme=sch, integrator=integ, cfl=cfl, scale=scale, u0=u0.tolist(), nsteps=nsteps)
         def run():
             s = getattr(impl.integ, integ)(msh, disc)
-            f = impl.field.fdata(mod, msh, [u0.copy()])
+            f = impl.field.fdata(fmod, msh, [u0.copy()])
             hist = [u0.copy()]
             for k in range(nsteps):
                 f = s.solve(f, cfl, stop={'maxit': 1})[-1]
